@@ -87,6 +87,10 @@ func C01(c *Ctx) {
 	c.loaderConfigRule("C01-15")
 	c.addressOfRule("C01-16")
 	c.foreignTypeRule("C01-17")
+	c.nameableRule("C01-18")
+	c.callableGetterRule("C01-19")
+	c.createFunctionShapeRule("C01-20", "names")
+	c.typecastNameRule("C01-21")
 }
 
 // wrapperRule: wrappers never surround nodes that may return (value, error).
@@ -198,7 +202,7 @@ func usesAsArgDeep(v ssa.Value) []ssa.CallInstruction {
 // visibilityRules: cross-package visibility (shared by C01 and C05).
 func (c *Ctx) visibilityRules(rule string) {
 	r := c.R
-	r.Rule(rule, "visibility: isExternalPkg(p) ⇔ p != nil ∧ thisPkg.PkgPath != p.Path(); isStructFieldAccessible(struct, name) ⇒ name is not the blank identifier ∧ struct type is a struct ∧ (¬external(pkg of the struct type) ∨ ast.IsExported(name)); in the source-path resolvers every field/method node is built only under ¬(external ∧ ¬IsExported(member name)) where external is computed from the package of the very type the member was looked up in")
+	r.Rule(rule, "visibility: isExternalPkg(p) ⇔ p != nil ∧ thisPkg.PkgPath != p.Path(); isStructFieldAccessible(struct, name) ⇒ name is not the blank identifier ∧ struct type is a struct ∧ (¬external(package the member is written in – for a field (*types.Var).Pkg() of the field of that name) ∨ ast.IsExported(name)); in the source-path resolvers every field/method node is built only under ¬(external ∧ ¬IsExported(member name)) where external is computed from the package of the very type the member was looked up in")
 	if fn := c.MustMethod(rule, "/pkg/builder", "assignmentBuilder", "isExternalPkg"); fn != nil {
 		rc := c.Reach(fn)
 		tr := rc.RetCond(0, true)
@@ -226,17 +230,48 @@ func (c *Ctx) visibilityRules(rule string) {
 		isStruct := c.M(true, func(t *core.Term) bool {
 			return t.IsCallTo(fnIsStruct) && t.Contains(func(s *core.Term) bool { return s.String() == structNode })
 		})
+		// the package that counts is the one the member is written in: for a field that is (*types.Var).Pkg() of the field
+		// of that name – the struct type's own package says nothing for an unnamed struct type, and `type T ext.S` has
+		// ext's fields
+		fieldOfStruct := func(s *core.Term) bool {
+			return s.IsCallTo("(*go/types.Struct).Field") && s.Args[0].Contains(func(x *core.Term) bool { return x.String() == structNode })
+		}
+		fieldPkg := func(s *core.Term) bool {
+			return s.Kind == "call" && strings.HasSuffix(s.Name, ").Pkg") && s.Contains(fieldOfStruct) && !s.Contains(func(x *core.Term) bool { return x.IsCallTo("(*go/types.Named).Obj") })
+		}
 		local := c.M(false, func(t *core.Term) bool {
-			return t.IsCallTo(fnIsExternalPkg) && t.Args[1].Contains(func(s *core.Term) bool { return s.String() == structNode })
+			return t.IsCallTo(fnIsExternalPkg) && t.Args[1].Contains(fieldPkg)
 		})
 		exported := c.M(true, func(t *core.Term) bool { return t.IsCallTo("go/ast.IsExported") && t.Args[0].String() == leaf })
-		unnamed := c.M(false, func(t *core.Term) bool {
-			return t.Kind == "extract" && t.Name == "1" && t.Args[0].Kind == "typeassert,ok" && t.Args[0].Name == "*types.Named"
-		})
+		// … taken from the field whose name is the member's
+		okField := false
+		for _, b := range fn.Blocks {
+			for _, in := range b.Instrs {
+				if v, isV := in.(ssa.Value); isV && fieldPkg(c.O.Of(v)) {
+					if _, isCall := in.(*ssa.Call); !isCall {
+						continue
+					}
+					d := c.ReachOf(in)
+					okField = d.Implies(c.M(true, func(t *core.Term) bool {
+						if t.Kind != "binop" || t.Name != "==" {
+							return false
+						}
+						for i := 0; i < 2; i++ {
+							a, b := t.Args[i], t.Args[1-i]
+							if b.String() == leaf && a.Kind == "call" && strings.HasSuffix(a.Name, ").Name") && a.Contains(fieldOfStruct) {
+								return true
+							}
+						}
+						return false
+					}))
+				}
+			}
+		}
+		r.Check(rule, FnKey(fn)+":package-of-the-field", c.Pos(fn.Pos()), okField, "the member's visibility is not judged by the package of the struct field of that name ((*types.Var).Pkg() taken under Field(i).Name() == name): the members of an unnamed struct type written in another package (`Limit struct{ max int }` inside an imported type) count as visible")
 		notBlank := c.M(false, eqConst(func(t *core.Term) bool { return t.String() == leaf }, `"_"`))
 		r.Check(rule, FnKey(fn)+":true⇒not-blank", c.Pos(fn.Pos()), len(tr) > 0 && tr.Implies(notBlank), "the blank field `_` is called accessible: it can neither be read nor assigned (`dst._ = src._` does not compile); true-condition: "+tr.Describe(c.O))
 		r.Check(rule, FnKey(fn)+":true⇒struct", c.Pos(fn.Pos()), len(tr) > 0 && tr.Implies(isStruct), "true-condition: "+tr.Describe(c.O))
-		r.Check(rule, FnKey(fn)+":true⇒visible", c.Pos(fn.Pos()), len(tr) > 0 && tr.Implies(local, exported, unnamed), "a member can be called accessible although the struct's package is external and the member unexported; true-condition: "+tr.Describe(c.O))
+		r.Check(rule, FnKey(fn)+":true⇒visible", c.Pos(fn.Pos()), len(tr) > 0 && tr.Implies(local, exported), "a member can be called accessible although it is unexported and the package it is written in was not shown to be the current one (the struct type's being unnamed, or named in this package, does not show it); true-condition: "+tr.Describe(c.O))
 	}
 	// resolvers
 	n := 0
